@@ -188,13 +188,13 @@ def cases(ctx, tier):
         out.append(('mpf_sub_exact %x %s %s %s %s' % (prec, hx(s1 * sm), hx(se), hx(s2 * tm), hx(te)), 'mpf_sub-bitexact'))
         # mpf_div / mul_ui / div_ui: dividends shorter and longer than needed, divisors equal to the top limbs of the dividend, exact
         # quotients, zero divisor; the family ceil(B^m / k) / B^m times k whose carry ripples through every kept limb
-        dm = bm if rng.random() < 0.9 else 0
+        dm = bm if rng.random() < 0.97 else 0
         if rng.random() < 0.2 and bm: 
             am2 = bm * (rng.getrandbits(64 * rng.randrange(1, prec + 1)) | 1)          # exact quotient
         elif rng.random() < 0.2 and bm: am2 = (bm << (64 * rng.randrange(0, 3))) + rng.choice([0, 1, -1])
         else: am2 = am
         out.append(('mpf_div_exact %x %s %s %s %s' % (prec, hx(s1 * max(0, am2)), hx(ae), hx(s2 * dm), hx(be)), 'mpf_div-bitexact'))
-        kk = rng.choice([0, 1, 2, 3, 10, B64 - 1, 1 << 63, rng.getrandbits(64), rng.getrandbits(20) | 1])
+        kk = rng.choice([1, 1, 2, 3, 10, B64 - 1, 1 << 63, rng.getrandbits(64), rng.getrandbits(64), rng.getrandbits(20) | 1]) if rng.random() < 0.97 else 0
         if rng.random() < 0.3 and kk >= 2:
             mm = prec + rng.randrange(1, 4); um2 = ((1 << (64 * mm)) + kk - 1) // kk
             out.append(('mpf_mul_ui_exact %x %s %s %x' % (prec, hx(um2), hx(0), kk), 'mpf_mul_ui-ripple'))
